@@ -43,13 +43,16 @@ def run(ck, rng):
         # reader failures
         offs = range(len(doc) + 1) if len(doc) <= 200 and ck.tier == "thorough" else sorted(set(rng.sample(range(len(doc) + 1), min(10, len(doc) + 1)) + [0, len(doc)]))
         for k in offs:
-            cases.append("%sfout %d - 0 %s" % (pre, k, tail))
+            # sometimes the reader's error also wraps context.Canceled (an abandoned stream): still the reader's failure
+            cases.append("%sfout %d%s - 0 %s" % (pre, k, rng.choice(["", "", "c"]), tail))
             meta.append(("reader", k, len(doc), total, doc, mode, massive, out0))
         # writer budgets
         if r0 == "ok":
             buds = range(total + 1) if total <= 120 and ck.tier == "thorough" else sorted(set(rng.sample(range(total + 1), min(10, total + 1)) + [0, max(0, total - 1), total]))
             for b in buds:
-                fl = rng.choice("01")
+                # 0: (partial n, injected error); 1: io.ErrShortWrite; 4: (len(p), error) on the crossing write;
+                # 5: the error also wraps context.Canceled
+                fl = rng.choice("010145")
                 cases.append("%sfout - %d %s %s" % (pre, b, fl, tail))
                 meta.append(("writer", b, len(doc), total, doc, mode, massive, out0))
             # a real *os.File that rejects every write (/dev/full, read-only descriptor, broken pipe)
@@ -81,6 +84,12 @@ def run(ck, rng):
     def model_case(c):
         c = c[1:] if c.startswith("m") else c
         f = c.split(" ")
+        if f[0] == "fout" and f[1].endswith("c"):
+            f[1] = f[1][:-1]
+        if f[0] == "fout" and f[3] == "5":
+            f[3] = "0"
+        if f[0] == "fout" and f[3] == "4":
+            f[3] = "0"      # not modelled: compared through the predicate only (see below)
         if f[0] == "fout" and f[3] == "3":
             f[2], f[3] = "0", "0"
         if f[0] == "frout" and f[2] == "3":
@@ -119,6 +128,10 @@ def run(ck, rng):
                 bad = "nil returned although the *os.File rejects every write (%d bytes of output)" % total
             impl[i] = r + " -"
             model[i] = model[i].split(" ")[0] + " -"
+        elif kind == "writer" and cases[i].split(" ")[3] == "4":
+            if r == "ok" and k < total:
+                bad = "nil returned although a Write reported an error (after taking its bytes), budget %d of %d" % (k, total)
+            model[i] = impl[i]
         else:
             if r == "ok" and k < total:
                 bad = "nil returned although the writer accepted only %d of %d bytes" % (len(unhx(acc)), total)
